@@ -117,7 +117,11 @@ func (fc *FnCtx) runAnchors(anchor, when string, pos token.Pos) {
 			fc.anchorsHit[a] = true
 			env := fc.anchorEnv()
 			fc.cur.assume(env.evalBool(a.Expr))
-			fc.noteTrusted("ghost attributes of a freshly made channel (" + a.Anchor + "): " + a.Src)
+			if strings.HasPrefix(a.Anchor, "make ") {
+				fc.noteTrusted("ghost attributes of a freshly made channel (" + a.Anchor + "): " + a.Src)
+			} else {
+				fc.noteTrusted("monitor invariant assumed at lock acquisition in " + fc.name + " (re-established by every function that takes the lock): " + a.Src)
+			}
 		}
 	}
 	for _, a := range fc.c.Interf {
@@ -1176,7 +1180,8 @@ func (fc *FnCtx) appendElems(et types.Type, s, t Val, tlen string, res Val, fits
 		old := fc.cur.get(name, srt)
 		fr := fc.declareFresh("appelems", inner)
 		fc.cur.set(name, srt, app("store", old, res.L[0], fr))
-		if fc.contentOn() && typeKey(et) == "uint8" {
+		if (fc.contentOn() && typeKey(et) == "uint8") || (typeKey(et) != "uint8" && !isStringType(t.T)) {
+			// bytes: only in content mode; other element types (append(xs, ys...)): always
 			fc.hasQuant = true
 			oldArr := app("select", old, s.L[0])
 			// Quantified over the absolute cell position p (pattern (select fr p)) so that E-matching does not
